@@ -653,6 +653,28 @@ func MonC13(c *MonCtx) {
 
 // MonC08 — pause / freeze / canary pause withhold exactly what they promise.
 func MonC08(c *MonCtx) {
+	// the user's last word on the canary: an accepted "canary pause" that no later command or hand edit of the two
+	// annotations revoked leaves the canary paused whatever an earlier unpause had recorded
+	setMem := func(v string) {
+		if c.Out.Next.Mem == nil {
+			c.Out.Next.Mem = map[string]string{}
+		}
+		if v == "" {
+			delete(c.Out.Next.Mem, "c08:user-paused")
+		} else {
+			c.Out.Next.Mem["c08:user-paused"] = v
+		}
+	}
+	switch {
+	case c.Out.Ev.K == "kubectl" && c.Out.CmdErr == nil && c.Out.Ev.B == "canary-pause":
+		if e := c.Pre.EDS(split(c.Out.Ev.A)); e != nil && e.Status.Canary != nil {
+			setMem(e.Status.Canary.ReplicaSet)
+		}
+	case c.Out.Ev.K == "kubectl" && strings.HasPrefix(c.Out.Ev.B, "canary-"):
+		setMem("")
+	case c.Out.Ev.K == "annotate" && strings.HasPrefix(c.Out.Ev.B, "canary-"):
+		setMem("")
+	}
 	if c.Out.Ev.K != "R_ers" {
 		return
 	}
@@ -680,6 +702,10 @@ func MonC08(c *MonCtx) {
 	if v.Role == "canary" {
 		cp := AnnotTrue(v.EDS, "canary-paused") || ERSCondTrue(v.RS, v1.ConditionTypeCanaryPaused)
 		unp := AnnotTrue(v.EDS, "canary-unpaused")
+		if cp && unp && c.Pre.Mem["c08:user-paused"] == v.RS.Name {
+			c.Antecedent("C08/canary-paused-after-unpause-sync")
+			unp = false
+		}
 		if cp && !unp {
 			c.Antecedent("C08/canary-paused-sync")
 			if len(v.Creates) > 0 {
